@@ -25,15 +25,21 @@ def include(rep, src, other_pid, rules, as_rule, clause, at_prefix=None):
     except ModelViolation as e:
         rep.violation(as_rule, e.at, f"{other_pid}/R0:{e.construct}", f"{clause}: {e.reason}", e.file, e.line, e.witness)
         return
+    except Exception as e:  # the sibling's analysis broke down: this clause is not decided (never a crash of the including check)
+        rep.undecide(f"{as_rule} clause '{clause}' depends on the rule set of {other_pid}, whose analysis failed: {type(e).__name__}: {str(e)[:120]}")
+        return
     finally:
         _ACTIVE.pop()
         _ACTIVE.pop()
+    prefixes = (at_prefix,) if isinstance(at_prefix, str) else tuple(at_prefix or ())
     for u in sub.undecided:
+        if prefixes and not any(p_ in u for p_ in prefixes):
+            continue  # the sibling could not decide something about other code than the part this clause depends on
         if rules is None or any(u.startswith(r + " ") for r in rules):
             rep.undecide(f"{as_rule} clause '{clause}' depends on {other_pid}: {u[:200]}")
     n = 0
     for f in sub.findings:
-        if at_prefix is not None and not str(f.at).startswith(at_prefix):
+        if prefixes and not str(f.at).startswith(prefixes):
             continue
         if rules is None or f.rule in rules:
             n += 1
